@@ -121,3 +121,31 @@ package common
 //@   loop 0: invariant posBS(this) + numBits == old(posBS(this)) + old(numBits) && 0 <= result && (old(numBits) - numBits < 32 ==> result < (1 << uint(old(numBits) - numBits)))
 //@   loop 0: invariant forall k int :: 0 <= k && k < old(numBits) - numBits ==> ((result >> uint(old(numBits) - numBits - 1 - k)) & 1 == 1) == srcBit(this, old(posBS(this)) + k)
 //@   loop 0: decreases numBits
+
+// ---------------------------------------------------------------- ECI registry entries (C15): every registered character set has a
+// non-empty value list whose first (canonical) value is an assigned ECI number 0..30 — so the one-byte designator form always suffices
+//@ lemma eciEntries()
+//@   property C15
+//@   globals CharacterSetECI_Cp437, CharacterSetECI_ISO8859_1, CharacterSetECI_ISO8859_2, CharacterSetECI_ISO8859_3, CharacterSetECI_ISO8859_4, CharacterSetECI_ISO8859_5, CharacterSetECI_ISO8859_7, CharacterSetECI_ISO8859_9, CharacterSetECI_ISO8859_13, CharacterSetECI_ISO8859_15, CharacterSetECI_ISO8859_16, CharacterSetECI_SJIS, CharacterSetECI_Cp1250, CharacterSetECI_Cp1251, CharacterSetECI_Cp1252, CharacterSetECI_Cp1256, CharacterSetECI_UnicodeBigUnmarked, CharacterSetECI_UTF8, CharacterSetECI_ASCII, CharacterSetECI_Big5, CharacterSetECI_GB18030, CharacterSetECI_EUC_KR
+//@   ensures CharacterSetECI_Cp437 != nil && len(CharacterSetECI_Cp437.values) >= 1 && 0 <= CharacterSetECI_Cp437.values[0] && CharacterSetECI_Cp437.values[0] <= 30 && (forall k int :: 0 <= k && k < len(CharacterSetECI_Cp437.values) ==> 0 <= CharacterSetECI_Cp437.values[k] && CharacterSetECI_Cp437.values[k] < 900)
+//@   ensures CharacterSetECI_ISO8859_1 != nil && len(CharacterSetECI_ISO8859_1.values) >= 1 && 0 <= CharacterSetECI_ISO8859_1.values[0] && CharacterSetECI_ISO8859_1.values[0] <= 30 && (forall k int :: 0 <= k && k < len(CharacterSetECI_ISO8859_1.values) ==> 0 <= CharacterSetECI_ISO8859_1.values[k] && CharacterSetECI_ISO8859_1.values[k] < 900)
+//@   ensures CharacterSetECI_ISO8859_2 != nil && len(CharacterSetECI_ISO8859_2.values) >= 1 && 0 <= CharacterSetECI_ISO8859_2.values[0] && CharacterSetECI_ISO8859_2.values[0] <= 30 && (forall k int :: 0 <= k && k < len(CharacterSetECI_ISO8859_2.values) ==> 0 <= CharacterSetECI_ISO8859_2.values[k] && CharacterSetECI_ISO8859_2.values[k] < 900)
+//@   ensures CharacterSetECI_ISO8859_3 != nil && len(CharacterSetECI_ISO8859_3.values) >= 1 && 0 <= CharacterSetECI_ISO8859_3.values[0] && CharacterSetECI_ISO8859_3.values[0] <= 30 && (forall k int :: 0 <= k && k < len(CharacterSetECI_ISO8859_3.values) ==> 0 <= CharacterSetECI_ISO8859_3.values[k] && CharacterSetECI_ISO8859_3.values[k] < 900)
+//@   ensures CharacterSetECI_ISO8859_4 != nil && len(CharacterSetECI_ISO8859_4.values) >= 1 && 0 <= CharacterSetECI_ISO8859_4.values[0] && CharacterSetECI_ISO8859_4.values[0] <= 30 && (forall k int :: 0 <= k && k < len(CharacterSetECI_ISO8859_4.values) ==> 0 <= CharacterSetECI_ISO8859_4.values[k] && CharacterSetECI_ISO8859_4.values[k] < 900)
+//@   ensures CharacterSetECI_ISO8859_5 != nil && len(CharacterSetECI_ISO8859_5.values) >= 1 && 0 <= CharacterSetECI_ISO8859_5.values[0] && CharacterSetECI_ISO8859_5.values[0] <= 30 && (forall k int :: 0 <= k && k < len(CharacterSetECI_ISO8859_5.values) ==> 0 <= CharacterSetECI_ISO8859_5.values[k] && CharacterSetECI_ISO8859_5.values[k] < 900)
+//@   ensures CharacterSetECI_ISO8859_7 != nil && len(CharacterSetECI_ISO8859_7.values) >= 1 && 0 <= CharacterSetECI_ISO8859_7.values[0] && CharacterSetECI_ISO8859_7.values[0] <= 30 && (forall k int :: 0 <= k && k < len(CharacterSetECI_ISO8859_7.values) ==> 0 <= CharacterSetECI_ISO8859_7.values[k] && CharacterSetECI_ISO8859_7.values[k] < 900)
+//@   ensures CharacterSetECI_ISO8859_9 != nil && len(CharacterSetECI_ISO8859_9.values) >= 1 && 0 <= CharacterSetECI_ISO8859_9.values[0] && CharacterSetECI_ISO8859_9.values[0] <= 30 && (forall k int :: 0 <= k && k < len(CharacterSetECI_ISO8859_9.values) ==> 0 <= CharacterSetECI_ISO8859_9.values[k] && CharacterSetECI_ISO8859_9.values[k] < 900)
+//@   ensures CharacterSetECI_ISO8859_13 != nil && len(CharacterSetECI_ISO8859_13.values) >= 1 && 0 <= CharacterSetECI_ISO8859_13.values[0] && CharacterSetECI_ISO8859_13.values[0] <= 30 && (forall k int :: 0 <= k && k < len(CharacterSetECI_ISO8859_13.values) ==> 0 <= CharacterSetECI_ISO8859_13.values[k] && CharacterSetECI_ISO8859_13.values[k] < 900)
+//@   ensures CharacterSetECI_ISO8859_15 != nil && len(CharacterSetECI_ISO8859_15.values) >= 1 && 0 <= CharacterSetECI_ISO8859_15.values[0] && CharacterSetECI_ISO8859_15.values[0] <= 30 && (forall k int :: 0 <= k && k < len(CharacterSetECI_ISO8859_15.values) ==> 0 <= CharacterSetECI_ISO8859_15.values[k] && CharacterSetECI_ISO8859_15.values[k] < 900)
+//@   ensures CharacterSetECI_ISO8859_16 != nil && len(CharacterSetECI_ISO8859_16.values) >= 1 && 0 <= CharacterSetECI_ISO8859_16.values[0] && CharacterSetECI_ISO8859_16.values[0] <= 30 && (forall k int :: 0 <= k && k < len(CharacterSetECI_ISO8859_16.values) ==> 0 <= CharacterSetECI_ISO8859_16.values[k] && CharacterSetECI_ISO8859_16.values[k] < 900)
+//@   ensures CharacterSetECI_SJIS != nil && len(CharacterSetECI_SJIS.values) >= 1 && 0 <= CharacterSetECI_SJIS.values[0] && CharacterSetECI_SJIS.values[0] <= 30 && (forall k int :: 0 <= k && k < len(CharacterSetECI_SJIS.values) ==> 0 <= CharacterSetECI_SJIS.values[k] && CharacterSetECI_SJIS.values[k] < 900)
+//@   ensures CharacterSetECI_Cp1250 != nil && len(CharacterSetECI_Cp1250.values) >= 1 && 0 <= CharacterSetECI_Cp1250.values[0] && CharacterSetECI_Cp1250.values[0] <= 30 && (forall k int :: 0 <= k && k < len(CharacterSetECI_Cp1250.values) ==> 0 <= CharacterSetECI_Cp1250.values[k] && CharacterSetECI_Cp1250.values[k] < 900)
+//@   ensures CharacterSetECI_Cp1251 != nil && len(CharacterSetECI_Cp1251.values) >= 1 && 0 <= CharacterSetECI_Cp1251.values[0] && CharacterSetECI_Cp1251.values[0] <= 30 && (forall k int :: 0 <= k && k < len(CharacterSetECI_Cp1251.values) ==> 0 <= CharacterSetECI_Cp1251.values[k] && CharacterSetECI_Cp1251.values[k] < 900)
+//@   ensures CharacterSetECI_Cp1252 != nil && len(CharacterSetECI_Cp1252.values) >= 1 && 0 <= CharacterSetECI_Cp1252.values[0] && CharacterSetECI_Cp1252.values[0] <= 30 && (forall k int :: 0 <= k && k < len(CharacterSetECI_Cp1252.values) ==> 0 <= CharacterSetECI_Cp1252.values[k] && CharacterSetECI_Cp1252.values[k] < 900)
+//@   ensures CharacterSetECI_Cp1256 != nil && len(CharacterSetECI_Cp1256.values) >= 1 && 0 <= CharacterSetECI_Cp1256.values[0] && CharacterSetECI_Cp1256.values[0] <= 30 && (forall k int :: 0 <= k && k < len(CharacterSetECI_Cp1256.values) ==> 0 <= CharacterSetECI_Cp1256.values[k] && CharacterSetECI_Cp1256.values[k] < 900)
+//@   ensures CharacterSetECI_UnicodeBigUnmarked != nil && len(CharacterSetECI_UnicodeBigUnmarked.values) >= 1 && 0 <= CharacterSetECI_UnicodeBigUnmarked.values[0] && CharacterSetECI_UnicodeBigUnmarked.values[0] <= 30 && (forall k int :: 0 <= k && k < len(CharacterSetECI_UnicodeBigUnmarked.values) ==> 0 <= CharacterSetECI_UnicodeBigUnmarked.values[k] && CharacterSetECI_UnicodeBigUnmarked.values[k] < 900)
+//@   ensures CharacterSetECI_UTF8 != nil && len(CharacterSetECI_UTF8.values) >= 1 && 0 <= CharacterSetECI_UTF8.values[0] && CharacterSetECI_UTF8.values[0] <= 30 && (forall k int :: 0 <= k && k < len(CharacterSetECI_UTF8.values) ==> 0 <= CharacterSetECI_UTF8.values[k] && CharacterSetECI_UTF8.values[k] < 900)
+//@   ensures CharacterSetECI_ASCII != nil && len(CharacterSetECI_ASCII.values) >= 1 && 0 <= CharacterSetECI_ASCII.values[0] && CharacterSetECI_ASCII.values[0] <= 30 && (forall k int :: 0 <= k && k < len(CharacterSetECI_ASCII.values) ==> 0 <= CharacterSetECI_ASCII.values[k] && CharacterSetECI_ASCII.values[k] < 900)
+//@   ensures CharacterSetECI_Big5 != nil && len(CharacterSetECI_Big5.values) >= 1 && 0 <= CharacterSetECI_Big5.values[0] && CharacterSetECI_Big5.values[0] <= 30 && (forall k int :: 0 <= k && k < len(CharacterSetECI_Big5.values) ==> 0 <= CharacterSetECI_Big5.values[k] && CharacterSetECI_Big5.values[k] < 900)
+//@   ensures CharacterSetECI_GB18030 != nil && len(CharacterSetECI_GB18030.values) >= 1 && 0 <= CharacterSetECI_GB18030.values[0] && CharacterSetECI_GB18030.values[0] <= 30 && (forall k int :: 0 <= k && k < len(CharacterSetECI_GB18030.values) ==> 0 <= CharacterSetECI_GB18030.values[k] && CharacterSetECI_GB18030.values[k] < 900)
+//@   ensures CharacterSetECI_EUC_KR != nil && len(CharacterSetECI_EUC_KR.values) >= 1 && 0 <= CharacterSetECI_EUC_KR.values[0] && CharacterSetECI_EUC_KR.values[0] <= 30 && (forall k int :: 0 <= k && k < len(CharacterSetECI_EUC_KR.values) ==> 0 <= CharacterSetECI_EUC_KR.values[k] && CharacterSetECI_EUC_KR.values[k] < 900)
